@@ -3,6 +3,7 @@ package oned
 // Decodes Code 39 barcodes. Supports "Full ASCII Code 39" if USE_CODE_39_EXTENDED_MODE is set.
 
 import (
+	"github.com/makiuchi-d/gozxing/verifhook"
 	"math"
 	"strings"
 
@@ -67,6 +68,7 @@ func NewCode39ReaderWithFlags(usingCheckDigit, extendedMode bool) gozxing.Reader
 }
 
 func (this *code39Reader) DecodeRow(rowNumber int, row *gozxing.BitArray, hints map[gozxing.DecodeHintType]interface{}) (*gozxing.Result, error) {
+	verifhook.Touch("oned.scratch", this, true)
 
 	theCounters := this.counters
 	for i := range theCounters {
